@@ -544,6 +544,33 @@ func RunCase(cs hx.Sx) hx.Sx {
 			last, settle = n, time.Now()
 		}
 	}
+	// a processor that was signalled must get the time to report that it woke up: on a loaded machine a runnable
+	// goroutine can stay unscheduled for longer than the settle window.  Wait (up to 3 s) until every wake-up the labels
+	// show as issued has been consumed; a Signal that really woke nobody never gets there and is reported by monitor 11.
+	pendingWakeups := func() int64 {
+		log.mu.Lock()
+		defer log.mu.Unlock()
+		var sl, w int64
+		for _, l := range log.labels {
+			switch l.kind {
+			case pipeline.VtStreamerSignal:
+				if w < sl {
+					w++
+				}
+			case pipeline.VtStreamerSleep:
+				sl++
+			case pipeline.VtStreamerWake:
+				sl--
+				if w > 0 {
+					w--
+				}
+			}
+		}
+		return w
+	}
+	for until := time.Now().Add(3 * time.Second); pendingWakeups() != 0 && time.Now().Before(until) && time.Now().Before(hardCap); {
+		time.Sleep(5 * time.Millisecond)
+	}
 	inUse, waiters := p.VerifPoolInUse(), p.VerifPoolWaiters()
 	log.add(p, LQuiescent, inUse, waiters, accepted.Load(), 0)
 	if inUse != 0 {
